@@ -13,14 +13,14 @@ def stall_part(res, cfg, binary, rng):
     for prof in ("debug", "release"):
         b = c.build_harness(prof)[0]
         outs = []
-        for mode in (1, 2):
+        for mode in (1, 2, 3):
             try:
                 outs.append(c.run_lines(b, ["stall %d" % mode], timeout=90)[0])
             except c.CheckError as e:
                 if "exited 124" not in str(e):
                     raise
                 outs.append(None)     # the call did not return within 90 s (a budgeted call takes < 1 s)
-        for mode, out in zip((1, 2), outs):
+        for mode, out in zip((1, 2, 3), outs):
             if out is None:
                 res.evaluations += 1
                 res.count("stall-mode-%d:no-return" % mode)
@@ -28,7 +28,7 @@ def stall_part(res, cfg, binary, rng):
                             "why": ["snapshot() did not return: the daemon %s and the client call never ended" %
                                     ("stalled mid-update right after the client's first generation load" if mode == 1 else "kept publishing")]})
                 continue
-            n, ret, kinds, ms = out.split()
+            n, ret, kinds, ms = out.split()[:4]
             n = int(n)
             res.evaluations += 1
             res.count("stall-mode-%d:%s" % (mode, ret))
@@ -38,6 +38,13 @@ def stall_part(res, cfg, binary, rng):
                 bad.append({"schedule": "stall %d" % mode, "impl": out, "why": ["%d accesses exceed the proved bound %d" % (n, bound)]})
             if ret != "E":
                 bad.append({"schedule": "stall %d" % mode, "impl": out, "why": ["a call that can never see a stable generation returned %s" % ret]})
+            if mode == 3:
+                nxt = out.split()[4]
+                cells = [int(x) for x in nxt.split(",")] if nxt != "E" else None
+                if cells is None or _shm.rec_index(cells) != 1:
+                    bad.append({"schedule": "stall 3", "impl": out,
+                                "why": ["after a call that gave up (daemon dead mid-update) the next call, with the update still in flight, must answer from the "
+                                        "client's previous snapshot (publication 1); it returned %s" % nxt]})
             measured = (n - 2) // per_iter if (n - 2) % per_iter == 0 else None
             ok = measured == cfg["retries"]
             res.oblige("measured-retry-budget[%s,mode %d] = c_retries of the model (%d)" % (prof, mode, cfg["retries"]), ok)
@@ -61,7 +68,7 @@ def open_part(res):
         hung = [what for what, v in (("ShmReader::new", r["rust"]["O"]), ("ClockBoundClient::new_with_path", r["rust"]["K"]),
                                      ("clockbound_open", r["c"]["K"]), ("ShmWriter::new + write", r["wrt"])) if "hang" in v]
         if hung:
-            bad.append({"case": F.describe(r), "why": ["%s did not return within 10 s on this file: a client (or the restarted daemon) hangs on what a dead daemon left behind" % ", ".join(hung)]})
+            bad.append({"case": F.describe(r), "why": ["%s did not return within 5 s on this file: a client (or the restarted daemon) hangs on what a dead daemon left behind" % ", ".join(hung)]})
     res.oblige("opening every file of the corpus returns (clients and daemon start-up): %d files" % len(results), not bad)
     if bad:
         res.violation({"property": "C18", "kind": "input", "case": bad[0], "others": [b["case"]["file"] for b in bad[1:6]],
